@@ -403,35 +403,58 @@ def generate(seed, tier):
                 if last and rng.random() < 0.8:
                     ops += ["%s r %s" % last, "%s g %s" % last]
         cases.append(["case deriv%d n=%d T=%d stat" % (i, n, T)] + ops)
-    # ---- tm: the built-in transition models
-    n_tm = 200 if thorough else 40
+    # ---- tm: the built-in transition models; every query (getPij, Pij, getEquilibriumFrequencies, all three at
+    # once in both orders) interleaved with updates that move one / several / the last / no parameter, clones and
+    # assignments
+    n_tm = 240 if thorough else 60
     for i in range(n_tm):
         kind = "auto" if i % 2 == 0 else "full"
         n = rng.randint(2, 5) if kind == "auto" else rng.randint(2, 4)
-        ops = ["tm a %s %d" % (kind, n)]
+        ops = ["tm a %s %d" % (kind, n), "tm c %s %d" % (kind, rng.randint(2, 4))]
+
+        def query(o):
+            u = rng.random()
+            if u < 0.3:
+                return "tmpij %s" % o
+            if u < 0.5:
+                return "tmeq %s" % o
+            if u < 0.85:
+                return "tmall %s %s" % (o, rng.choice(["pe", "ep"]))
+            return "tmPij %s %d %d" % (o, rng.randrange(n), rng.randrange(n))
+
+        def update(o):
+            if kind == "auto":
+                w = rng.random()
+                v = rng.choice([0.0, 1.0, 1.5, -0.1, 0.95]) if w < 0.12 else rng.uniform(0.01, 0.99) if w < 0.9 else 1 - 10.0 ** (-rng.uniform(3, 12))
+                name = "lambda%d" % rng.randint(1, n) if rng.random() < 0.93 else rng.choice(["lambda0", "lambda%d" % (n + 1), "mu1"])
+                return "tmset %s %s %s" % (o, name, h(v))
+            if rng.random() < 0.5:
+                P = []
+                for _r in range(n):
+                    r = [rng.random() + 0.05 for _ in range(n)]
+                    if rng.random() < 0.05:
+                        r[rng.randrange(n)] = 0.0          # a zero entry: theta = 0 or 1 is refused by the constraint
+                    sm = sum(r) * (1.0 if rng.random() < 0.95 else 1.01)   # not summing to one: refused
+                    P += [x / sm for x in r]
+                return "tmsetP %s %s" % (o, " ".join(h(x) for x in P))
+            w = rng.random()
+            v = rng.choice([0.0, 1.0, 1.5, -0.1, 0.5]) if w < 0.1 else rng.uniform(0.05, 0.95)
+            name = "%d.theta%d" % (rng.randint(1, n), rng.randint(1, max(1, n - 1))) if rng.random() < 0.93 else rng.choice(["1.theta%d" % n, "%d.theta1" % (n + 1), "theta1"])
+            return "tmset %s %s %s" % (o, name, h(v))
+
         for _ in range(rng.randint(3, 14)):
             u = rng.random()
             if u < 0.35:
-                if kind == "auto":
-                    w = rng.random()
-                    v = rng.choice([0.0, 1.0, 1.5, -0.1, 0.95]) if w < 0.12 else rng.uniform(0.01, 0.99) if w < 0.9 else 1 - 10.0 ** (-rng.uniform(3, 12))
-                    name = "lambda%d" % rng.randint(1, n) if rng.random() < 0.93 else rng.choice(["lambda0", "lambda%d" % (n + 1), "mu1"])
-                    ops.append("tmset a %s %s" % (name, h(v)))
-                else:
-                    P = []
-                    for _r in range(n):
-                        r = [rng.random() + 0.05 for _ in range(n)]
-                        sm = sum(r)
-                        P += [x / sm for x in r]
-                    ops.append("tmsetP a " + " ".join(h(x) for x in P))
-            elif u < 0.6:
-                ops.append("tmpij a")
-            elif u < 0.85:
-                ops.append("tmeq a")
-            elif u < 0.93 and kind == "auto":
-                ops.append("tmPij a %d %d" % (rng.randrange(n), rng.randrange(n)))
+                ops.append(update("a"))
+                if rng.random() < 0.5:
+                    ops.append(query("a"))
+            elif u < 0.8:
+                ops.append(query("a"))
+            elif u < 0.9:
+                ops += ["tmclone a b", query("b"), update("a"), query("b"), query("a")]
             else:
-                ops += ["tmclone a b", rng.choice(["tmeq b", "tmpij b"])]
+                # operator= onto an object of another size with its own caches, then both move on
+                ops += [query("c"), "tmassign a c", query("c"), update("c"), query("c"), query("a")]
         ops += ["tmpij a", "tmeq a"] if rng.random() < 0.5 else ["tmeq a", "tmpij a"]
         cases.append(["case tm%d %s n=%d" % (i, kind, n)] + ops)
     return cases
